@@ -61,29 +61,28 @@ def itemRange : Item → Option (Int × Int)
   | .slice (some lo) (some hi) none => some (lo, hi)
   | _ => none
 
-/-- **The box**: on an axis addressed by at least one point the item selects exactly
-`[max(min idx, 0), max(max idx + 1, 0))`, whatever `keepdims`; it contains the index of every
-point that lies on or after the start of the array — in particular of every on-array point, so
-points off the array never make the region exclude an on-array point. -/
-theorem crop_axis_box (keepdims : Bool) (i : Int) (is : List Int) :
-    itemRange (cropAxis keepdims (i :: is)) = some (max (listMin i is) 0, max (listMax i is + 1) 0) ∧
-    ∀ x ∈ i :: is, 0 ≤ x → max (listMin i is) 0 ≤ x ∧ x < max (listMax i is + 1) 0 := by
+/-- **The box**: on an axis of length `n` addressed by at least one point the item selects exactly
+`[max(min idx, 0), min(max(max idx + 1, 0), n))`, whatever `keepdims`; it contains the index of
+every point that lies on the array, so points off the array never make the region exclude an
+on-array point. -/
+theorem crop_axis_box (keepdims : Bool) (n : Nat) (i : Int) (is : List Int) :
+    itemRange (cropAxis keepdims n (i :: is)) = some (max (listMin i is) 0, min (max (listMax i is + 1) 0) n) ∧
+    ∀ x ∈ i :: is, 0 ≤ x → x < n → max (listMin i is) 0 ≤ x ∧ x < min (max (listMax i is + 1) 0) n := by
   constructor
   · simp only [cropAxis]
     split
     · next h => simp only [itemRange]; congr 1; rw [Prod.mk.injEq]; omega
     · rfl
-  · intro x hx h0
+  · intro x hx h0 hn
     have h1 := (listMin_spec i is).1 x hx
     have h2 := (listMax_spec i is).1 x hx
     omega
 
-/-- **Smallest**: when every addressed index is on or after the start of the array, the box is
-`[min idx, max idx + 1)` and any range containing all the indices contains it; both ends are
-attained by a point. -/
-theorem crop_axis_minimal (i : Int) (is : List Int) (hpos : ∀ x ∈ i :: is, 0 ≤ x) (a b : Int)
+/-- **Smallest**: when every addressed index is on the array, the box is `[min idx, max idx + 1)`
+and any range containing all the indices contains it; both ends are attained by a point. -/
+theorem crop_axis_minimal (n : Nat) (i : Int) (is : List Int) (hpos : ∀ x ∈ i :: is, 0 ≤ x ∧ x < n) (a b : Int)
     (hab : ∀ x ∈ i :: is, a ≤ x ∧ x < b) :
-    max (listMin i is) 0 = listMin i is ∧ max (listMax i is + 1) 0 = listMax i is + 1 ∧
+    max (listMin i is) 0 = listMin i is ∧ min (max (listMax i is + 1) 0) n = listMax i is + 1 ∧
     a ≤ listMin i is ∧ listMax i is + 1 ≤ b := by
   have hmin := (listMin_spec i is).2
   have hmax := (listMax_spec i is).2
@@ -92,25 +91,38 @@ theorem crop_axis_minimal (i : Int) (is : List Int) (hpos : ∀ x ∈ i :: is, 0
   omega
 
 /-- axes no point addresses are left whole -/
-theorem crop_axis_untouched (keepdims : Bool) : cropAxis keepdims [] = Item.all := rfl
+theorem crop_axis_untouched (keepdims : Bool) (n : Nat) : cropAxis keepdims n [] = Item.all := rfl
 
 /-- `keepdims` changes only whether a one-element range is an integer (axis dropped) or a
 length-1 slice (axis kept): the selected range is the same. -/
-theorem crop_keepdims (idx : List Int) :
-    itemRange (cropAxis true idx) = itemRange (cropAxis false idx) ∨ idx = [] := by
+theorem crop_keepdims (n : Nat) (idx : List Int) :
+    itemRange (cropAxis true n idx) = itemRange (cropAxis false n idx) ∨ idx = [] := by
   cases idx with
   | nil => right; rfl
-  | cons i is => left; rw [(crop_axis_box true i is).1, (crop_axis_box false i is).1]
+  | cons i is => left; rw [(crop_axis_box true n i is).1, (crop_axis_box false n i is).1]
 
-theorem crop_keepdims_true_slice (i : Int) (is : List Int) : (cropAxis true (i :: is)).isInt = false := by
+theorem crop_keepdims_true_slice (n : Nat) (i : Int) (is : List Int) : (cropAxis true n (i :: is)).isInt = false := by
   simp [cropAxis, Item.isInt]
+
+/-- … and without `keepdims` an axis is dropped exactly when the clipped box is one element wide —
+at the end of the array as well as at its start and inside it. -/
+theorem crop_one_wide_dropped (n : Nat) (i : Int) (is : List Int) :
+    ((cropAxis false n (i :: is)).isInt = true ↔
+      min (max (listMax i is + 1) 0) n - max (listMin i is) 0 = 1) := by
+  simp only [cropAxis]
+  split
+  · next h => simp only [Item.isInt, true_iff]; exact h.1
+  · next h =>
+    simp only [Item.isInt, Bool.false_eq_true, false_iff]
+    intro h1
+    exact h ⟨h1, trivial⟩
 
 /-- a one-element result (every axis reduced to an integer) is refused; otherwise — unless all
 points are off the array along some axis — the item is the per-axis items -/
 theorem crop_scalar_refused (shape : List Nat) (per : List (List Int)) (keepdims : Bool)
     (hin : (List.zipWith cropAxisOutside shape per).any id = false) :
-    (((per.map (cropAxis keepdims)).all Item.isInt = true → cropItem shape per keepdims = .error .valueError)) ∧
-    (((per.map (cropAxis keepdims)).all Item.isInt = false → cropItem shape per keepdims = .ok (per.map (cropAxis keepdims)))) := by
+    (((List.zipWith (cropAxis keepdims) shape per).all Item.isInt = true → cropItem shape per keepdims = .error .valueError)) ∧
+    (((List.zipWith (cropAxis keepdims) shape per).all Item.isInt = false → cropItem shape per keepdims = .ok (List.zipWith (cropAxis keepdims) shape per))) := by
   constructor <;> intro h <;> simp [cropItem, h, hin]
 
 /-- **Never silently empty**: if along some axis every addressing point is before the start or
@@ -138,7 +150,7 @@ non-empty (so a point off the array on one axis cannot empty the region for the 
 theorem crop_accepted_nonempty (n : Nat) (i : Int) (is : List Int)
     (h : cropAxisOutside n (i :: is) = false) :
     let lo := max (listMin i is) 0
-    let hi := max (listMax i is + 1) 0
+    let hi := min (max (listMax i is + 1) 0) n
     (sliceBounds n (some lo) (some hi)).1 < (sliceBounds n (some lo) (some hi)).2 := by
   intro lo hi
   simp only [cropAxisOutside, Bool.or_eq_false_iff, decide_eq_false_iff_not] at h
@@ -163,10 +175,10 @@ among the points is inside the range the produced slice selects on an axis of le
 theorem crop_off_array (n : Nat) (i : Int) (is : List Int) (x : Int) (hx : x ∈ i :: is)
     (h0 : 0 ≤ x) (hn : x < n) :
     let lo := max (listMin i is) 0
-    let hi := max (listMax i is + 1) 0
+    let hi := min (max (listMax i is + 1) 0) n
     ((sliceBounds n (some lo) (some hi)).1 : Int) ≤ x ∧ x < (sliceBounds n (some lo) (some hi)).2 := by
   intro lo hi
-  have hb := (crop_axis_box true i is).2 x hx h0
+  have hb := (crop_axis_box true n i is).2 x hx h0 hn
   have hlo : 0 ≤ lo := by omega
   have hhi : 0 ≤ hi := by omega
   simp only [sliceBounds, clampBound]
